@@ -152,7 +152,27 @@ func checkLockHygiene(w *World, r *Report, la *LockAnalysis) {
 		}
 	}
 
-	exempt := func(lockID string) bool { return lockID == "collection.mu" }
+	// the rule is about the locks of the container's shared structs; a lock that belongs to a
+	// handle type of its own (a Lazy[T] that serialises its first resolution) is held around
+	// resolution by design and protects nothing the container itself touches
+	ownerOK := map[string]bool{}
+	for _, ss := range sharedStructs {
+		ownerOK[ss.name] = true
+	}
+	if ws, _ := discoverWrappers(w); ws != nil {
+		for _, ss := range ws {
+			ownerOK[ss.name] = true
+		}
+	}
+	exempt := func(lockID string) bool {
+		if lockID == "collection.mu" {
+			return true
+		}
+		if i := strings.IndexByte(lockID, '.'); i > 0 && !ownerOK[lockID[:i]] {
+			return true
+		}
+		return false
+	}
 
 	// --- (ii) user code under a lock, (i) lock-order edges ------------------
 	var edges []lockEdge
@@ -666,6 +686,10 @@ func checkGoStatements(w *World, r *Report) {
 			n++
 			construct := fmt.Sprintf("%s#go/%d", fi.Name(), n)
 			_, _, bad := watcherOf(w, info, g)
+			if bad != "" && closerGoroutine(w, info, fi, g) {
+				r.OK("R09.4", construct, g.Pos(), false, "goroutine only calls the idempotent Close of a scope / provider (and hands the result to a channel)")
+				return true
+			}
 			if bad != "" {
 				r.Fail("R09.4", construct, g.Pos(), "watcher goroutine: %s", bad)
 			} else {
@@ -1021,4 +1045,79 @@ func holdsInstancesOnly(fv *types.Var) bool {
 		return false
 	}
 	return !isNamedType(m.Key(), modPath, "scope") && !isNamedType(m.Key(), modPath, "Disposable") && !isNamedType(m.Key(), modPath, "Scope")
+}
+
+// closerGoroutine: the goroutine (a literal, possibly calling literals bound in
+// the enclosing function) calls nothing of the repository but Close of a scope or
+// provider - through the concrete types or the Scope / Provider interfaces - and
+// otherwise only receives, sends and waits. Such a goroutine cannot resolve,
+// construct or store: it can only do what any caller of Close may do.
+func closerGoroutine(w *World, info *types.Info, fi *FuncInfo, g *ast.GoStmt) bool {
+	lit, ok := unparen(g.Call.Fun).(*ast.FuncLit)
+	if !ok {
+		return false
+	}
+	binds := litBindings(info, fi.Decl.Body)
+	seen := map[*ast.FuncLit]bool{}
+	closes := false
+	var judge func(body *ast.BlockStmt, depth int) bool
+	judge = func(body *ast.BlockStmt, depth int) bool {
+		okAll := true
+		for _, c := range callsIn(body, true) {
+			if tv, isT := info.Types[c.Fun]; isT && tv.IsType() {
+				continue
+			}
+			if _, isLit := unparen(c.Fun).(*ast.FuncLit); isLit {
+				continue // its calls are in this list already
+			}
+			if id, isId := unparen(c.Fun).(*ast.Ident); isId {
+				if _, isB := info.Uses[id].(*types.Builtin); isB {
+					continue
+				}
+				if l2, bound := binds[info.Uses[id]]; bound && depth > 0 {
+					if !seen[l2] {
+						seen[l2] = true
+						if !judge(l2.Body, depth-1) {
+							okAll = false
+						}
+					}
+					continue
+				}
+			}
+			cal := callee(info, c)
+			if cal == nil {
+				okAll = false
+				continue
+			}
+			if cal.Name() == "Done" && isNamedType(recvTypeOf(cal), "context", "Context") {
+				continue
+			}
+			if cal.Name() == "Close" {
+				if rcv, _, isM := methodCall(c); isM {
+					if n := namedOf(info.TypeOf(rcv)); n != nil && n.Obj().Pkg() != nil && n.Obj().Pkg().Path() == modPath {
+						switch n.Obj().Name() {
+						case "scope", "provider", "Scope", "Provider":
+							closes = true
+							continue
+						}
+					}
+				}
+			}
+			if cal.Pkg() != nil && !strings.HasPrefix(cal.Pkg().Path(), modPath) {
+				switch cal.Pkg().Path() {
+				case "fmt", "errors", "time", "context", "sync":
+					continue
+				}
+			}
+			// an accessor that hands out a channel to wait on (closeDone() <-chan struct{})
+			if sig, isSig := cal.Type().(*types.Signature); isSig && sig.Params().Len() == 0 && sig.Results().Len() == 1 {
+				if _, isChan := sig.Results().At(0).Type().Underlying().(*types.Chan); isChan {
+					continue
+				}
+			}
+			okAll = false
+		}
+		return okAll
+	}
+	return judge(lit.Body, 2) && closes
 }
